@@ -337,7 +337,10 @@ func (stmt *Statement) BuildCondition(query interface{}, args ...interface{}) []
 		case *DB:
 			// work on an own instance: a reusable handle passed as grouped condition must not
 			// lose its scopes or have its conditions rewritten
-			v = v.getInstance().executeScopes()
+			// (a scope may register further scopes while it runs: go on until none is left, as Execute does)
+			for v = v.getInstance().executeScopes(); len(v.Statement.scopes) > 0; {
+				v = v.executeScopes()
+			}
 
 			if cs, ok := v.Statement.Clauses["WHERE"]; ok {
 				if where, ok := cs.Expression.(clause.Where); ok {
